@@ -7,8 +7,12 @@ PROP = 'C02'
 def main(tier='quick', seed=0):
     t0 = time.time()
     records, errors, info = cxx.records_for(PROP)
-    assumptions = list(cxx.CXX_ASSUMPTIONS) + [
-        'retrieve_tree / run (parsing.pyx) rebuild the tree from the back-pointers and the category table: covered by the bounded run on the DePyx text (leaf tokens in order, licensed nodes, allowed root), not deductively',
+    from props import pyx
+    precs, perrs = pyx.records_for(PROP)          # the Python half: retrieve_tree, scaffold, the callbacks and the id table of parsing.pyx (DePyx text)
+    records.extend(precs)
+    errors.extend(perrs)
+    assumptions = list(cxx.CXX_ASSUMPTIONS) + pyx.ASSUMPTIONS + [
+        'the body of run (parsing.pyx) around these functions - building the table, the per-sentence loop, pairing trees with scores - is covered by the bounded run on the DePyx text (leaf tokens in order, licensed nodes, allowed root), not deductively',
     ]
-    extra = dict(functions_under_contract=['depccg/parsing.h::parse_sentence (spans, adjacency of children, licensed categories, root and unary guards, pointer shapes, index bounds, no unsigned wrap-around)'] + cxx.HELPER_FUNCTIONS['C02'], cxx=info)
+    extra = dict(functions_under_contract=['depccg/parsing.h::parse_sentence (spans, adjacency of children, licensed categories, root and unary guards, pointer shapes, index bounds, no unsigned wrap-around)'] + cxx.HELPER_FUNCTIONS['C02'] + pyx.FUNCTIONS_UNDER_CONTRACT[PROP], cxx=info)
     return c12.finish_with(PROP, tier, seed, t0, records, errors, extra, assumptions, ['search_real.py', 'pyx_real.py'])
